@@ -395,6 +395,14 @@ impl<'a, T: Evaluate> PiecewiseEvaluator<'a, T> {
     // instances for references.
     #[inline]
     pub fn evaluate(&mut self, x: f64) -> f64 {
+        // NaN compares false with everything: answer from the last segment as
+        // `Piecewise::evaluate` does and leave the cursor untouched, otherwise
+        // the NaN stored in `last_evaluation` sends every later query down the
+        // backward path with an empty search range.
+        if x.is_nan() {
+            return self.last.evaluate(x);
+        }
+
         // If the new evaluation is for value higher than previous
         // one, we want to start searching for the segment from the
         // last segment we have recorded: we already know there is no
